@@ -102,6 +102,10 @@ def ttl_py(spelling, ticks):
         def f(*a, result=_NO_RESULT, **k):
             return _td(ticks) if result is not _NO_RESULT else _td(1)
         return f
+    if spelling == "callable_result_not_none":      # (used when no execution of the case returns None) the TTL of "no result at all" is another one
+        def f2(*a, result=_NO_RESULT, **k):
+            return _td(ticks) if result is not _NO_RESULT and result is not None else _td(1)
+        return f2
     raise KeyError(spelling)
 
 
@@ -175,7 +179,10 @@ def run_impl(case):
         await cache.init()
         ex = {"n": 0}
         steps = []
-        ttl = ttl_py(case["spelling"], round(case["secs"] * 16))
+        sp = case["spelling"]
+        if sp == "callable_result" and kind == "simple" and None not in case["script"]:
+            sp = "callable_result_not_none"      # the callable is handed the real result of every store: a returned value or the raised exception, never None
+        ttl = ttl_py(sp, round(case["secs"] * 16))
         cond = cond_py(case["cond"], case.get("cond_variant", 0))
         CUR.clear()
         await asyncio.sleep(TICK)
